@@ -10,7 +10,7 @@ from __future__ import annotations
 
 from .. import pkggen as pg
 from .. import structure as st
-from ..core import Check, Viol, drive, gated_features, generic_replay, rng_for
+from ..core import Check, Viol, drive, gated_features, generic_replay, rng_for, noise_opts
 from ..run import Case
 from ..stubs import StubSet
 
@@ -46,7 +46,7 @@ def gen(tier: str, seed: int) -> list[Case]:
     cases = []
     for i in range(n):
         pkg = pg.random_pkg(rng, cfg)
-        opts = ["-nc"] if i % 2 == 1 else []
+        opts = (["-nc"] if i % 2 == 1 else []) + noise_opts(seed, PID, i)
         cases.append(Case(cid=f"c04-{i}", files=pg.render(pkg), opts=opts, meta={"pkg": pkg}, reach=REACH))
     for name, pkg in scenarios().items():
         for nc in (False, True):
